@@ -53,6 +53,14 @@ def _cleanup():
 atexit.register(_cleanup)
 
 
+_T0 = time.time()
+
+
+def dbg(*a):
+    if os.environ.get("VERIF_DEBUG"):
+        print(f"[{time.time() - _T0:7.1f}s]", *a, file=sys.stderr, flush=True)
+
+
 def derive_seed(master, prop, index):
     h = hashlib.sha256(f"{master}/{prop}/{index}".encode()).digest()
     return int.from_bytes(h[:6], "big")
@@ -189,9 +197,20 @@ def match_known(known, prop, sig):
 
 
 class Budget:
-    def __init__(self, n):
-        self.left = n
+    def __init__(self, n, wall=None):
+        self._left = n
         self.used = 0
+        self.deadline = (time.time() + wall) if wall else None
+
+    @property
+    def left(self):
+        if self.deadline is not None and time.time() > self.deadline:
+            return 0
+        return self._left
+
+    @left.setter
+    def left(self, v):
+        self._left = v
 
 
 class Tester:
@@ -229,13 +248,46 @@ def make_test(clause, budget):
     return Tester(clause, budget)
 
 
-def minimise(scn, viol, budget_n=400):
-    budget = Budget(budget_n)
+def explicitise(scn, test):
+    """Replace every policy-driven par_scan schedule by the explicit decision
+    list it produced, then ddmin the decisions."""
+    outs = run_many([scn], verbose=True)[0]
+    if any(not o.get("ok") for o in outs):
+        return scn
+    cand = copy.deepcopy(scn)
+    changed = False
+    for wi, o in enumerate(outs):
+        for it in o.get("interleavings", []):
+            op = cand["worlds"][wi]["ops"][it["op"]]
+            if op[0] == "par_scan" and it.get("decisions") is not None and op[3].get("policy") != "explicit":
+                op[3] = {"policy": "explicit", "scope": op[3].get("scope", "engine"), "decisions": it["decisions"]}
+                changed = True
+    if not changed or not test(cand):
+        return scn
+    scn = cand
+    for wi, w in enumerate(scn["worlds"]):
+        for oi, op in enumerate(w["ops"]):
+            if op[0] == "par_scan" and op[3].get("policy") == "explicit" and len(op[3]["decisions"]) <= 4000:
+                def build(dec, wi=wi, oi=oi):
+                    c = copy.deepcopy(scn)
+                    c["worlds"][wi]["ops"][oi][3]["decisions"] = dec
+                    return c
+                kept = shrink.dd(op[3]["decisions"], build, test)
+                scn = build(kept)
+    return scn
+
+
+def minimise(scn, viol, budget_n=400, wall=None):
+    if wall is None:
+        wall = float(os.environ.get("VERIF_MIN_WALL", "90"))
+    budget = Budget(budget_n, wall)
     test = make_test(viol["clause"], budget)
     prop = scn["property"]
     scn = copy.deepcopy(scn)
     if prop == "C09":
         scn = shrink.shrink_c09(scn, viol, test)
+        if any(op[0] == "par_scan" for w in scn["worlds"] for op in w["ops"]):
+            scn = explicitise(scn, test)
     elif prop == "C18":
         scn = shrink.shrink_c18(scn, viol, test)
     else:
@@ -362,7 +414,7 @@ def nontrivial(scn, outs):
 
 
 def batch_sizes(prop, tier):
-    q = {"C09": 96, "C18": 320, "C20": 320}
+    q = {"C09": 288, "C18": 320, "C20": 320}
     t = {"C09": 4000, "C18": 16000, "C20": 16000}
     n = (q if tier == "quick" else t)[prop]
     scale = float(os.environ.get("VERIF_SCALE", "1"))
@@ -458,7 +510,7 @@ def run_check(prop, tier, master, only_index=None):
     families = {}
     first_digests = {}
     indices = range(n) if only_index is None else [only_index]
-    chunk = 64
+    chunk = 48
     idx_list = list(indices)
     deadline = float(os.environ.get("VERIF_WALL", "0")) or None
     for c0 in range(0, len(idx_list), chunk):
@@ -502,7 +554,7 @@ def run_check(prop, tier, master, only_index=None):
                 })
             if viols:
                 failing.append((i, scn, viols))
-        if failing and tier == "quick" and len(failing) >= 3:
+        if failing and (tier == "quick" or len(failing) >= 12):
             break
     # ---- determinism gate on a sample: same scenario, fresh interpreters, twice
     gate_n = min(len(first_digests), 24 if tier == "quick" else 400)
@@ -522,12 +574,14 @@ def run_check(prop, tier, master, only_index=None):
     reported = []
     known_lines = []
     seen_sigs = set()
+    dbg("batch done", evaluations, "failing", len(failing))
     groups = {}
-    for i, scn, viols in failing[:12]:
+    for i, scn, viols in failing[: (4 if tier == "quick" else 12)]:
         for clause in clause_set(viols):
             v = next(x for x in viols if x["clause"] == clause)
             pre = ()
-            if prop == "C09" and clause == "results_differ":
+            if prop == "C09" and clause == "results_differ" and any(f.get("property") == prop for f in known.get("findings", [])):
+                # only needed so that a listed finding cannot mask a different mechanism
                 keep = sorted({v["a"]["world"], v["b"]["world"]})
                 cand = copy.deepcopy(scn)
                 cand["worlds"] = [scn["worlds"][k] for k in keep]
@@ -539,7 +593,9 @@ def run_check(prop, tier, master, only_index=None):
             groups.setdefault((clause, pre), []).append((i, scn, v))
     for (clause, pre), members in sorted(groups.items()):
         for i, scn, v in members[:1]:
+            dbg("minimise", clause, pre, "scenario", i)
             small, used = minimise(scn, v)
+            dbg("minimised in", used, "runs")
             outs = run_many([small], verbose=True)[0]
             sviols, serrs = evaluate(small, outs)
             sv = next((x for x in sviols if x["clause"] == clause), None)
@@ -558,13 +614,15 @@ def run_check(prop, tier, master, only_index=None):
             if sigkey in seen_sigs:
                 continue
             seen_sigs.add(sigkey)
+            dbg("mechanism", mech)
             nconf = confirm(small, clause)
+            dbg("confirmed", nconf)
             desc = describe(small, sv, outs)
             k = match_known(known, prop, sig)
             if k and nconf == 3:
                 known_lines.append(f"KNOWN-FINDING: property={prop} {k.get('what', k.get('id'))}")
                 continue
-            rp = os.path.join(VERIF, "replays", f"{prop}-{scn['seed']}-{clause}.json")
+            rp = os.path.join(os.environ.get("VERIF_REPLAY_DIR") or os.path.join(VERIF, "replays"), f"{prop}-{scn['seed']}-{clause}.json")
             write_json(rp, {"scenario": small, "signature": sig, "violation": desc, "found_at": {"VERIF_SEED": master, "index": i, "tier": tier},
                             "minimisation_runs": used, "confirmed": f"{nconf}/3"})
             if nconf == 3:
@@ -624,7 +682,8 @@ def run_check(prop, tier, master, only_index=None):
             "sampling, not enumeration: a clean batch is evidence, not proof",
         ],
     }
-    write_json(os.path.join(VERIF, "evidence", f"{prop}.json"), evidence)
+    if not os.environ.get("VERIF_NO_EVIDENCE"):
+        write_json(os.path.join(VERIF, "evidence", f"{prop}.json"), evidence)
     warn = []
     print(f"{prop} {tier}: {evaluations} scenarios, {worlds_run} worlds, {len(nontriv)} distinct non-trivial, {wall:.1f}s; "
           f"violations={len(reported)} known={len(set(known_lines))} harness_errors={len(harness_errors)} unstable={len(unstable)}")
